@@ -571,6 +571,18 @@ func c13Scenarios(tier string) []*world.Scenario {
 			}
 		}
 	}
+	// several connections per node (the ASKING that precedes a re-sent request must travel on the SAME connection)
+	for _, rc := range c13Cases[:3] {
+		for _, kind := range []string{"get", "mget", "del"} {
+			for _, conns := range []int{2, 3} {
+				sc := c13Scenario(rc, kind, 1, b)
+				sc.ServerConns = conns
+				sc.Family = rc.name + "/several-connections"
+				sc.Name += fmt.Sprintf("/%dconns-per-node", conns)
+				out = append(out, sc)
+			}
+		}
+	}
 	// several redirects outstanding at the same time: two / three pipelined requests for keys of a migrating (ASK) or moved
 	// slot, their redirect replies in one read or in separate reads (how many a read carries is an enumerated choice)
 	for _, mix := range []string{"ask,ask", "moved,moved", "ask,moved", "ask,ask,ask", "ask,get,ask"} {
